@@ -5,7 +5,7 @@ import ElkVerif.Proofs.UpvalueGrow
 
 `Elk.Upvalue.C` mirrors the VM's upvalue machinery (stack slots, upvalue objects that are open
 on a slot or closed on their own copy, the open-upvalue list, `captureUpvalue`,
-`opCloseUpvalues`, frames). `Elk.Upvalue.A` is the reference semantics: every variable is a
+`opCloseUpvalues`, frames, tail calls). `Elk.Upvalue.A` is the reference semantics: every variable is a
 heap cell, closures hold cell references. A *handle* is what a closure stores for one captured
 variable. The theorems say that the two machines cannot be told apart by reading, for every
 operation sequence that respects the compiler's discipline (`stepS`: no slot is popped while an
@@ -115,6 +115,26 @@ theorem survives_return (pre mid : List Op) (hw : ∀ op ∈ mid, op.isWrite = f
   have hl : a₁.hs.length = c₁.hs.length := by rw [hR.hs]; simp
   rw [← hl] at hA
   exact runA_survives a₁ a₂ mid hw i v rs₂ hA
+
+/-- **Tail calls.** A tail call reuses the running frame (`callBytecodeFunctionTCO`: the slots
+are overwritten with the receiver and the arguments). A variable of that frame captured before
+keeps its value. -/
+theorem tailcall_safe (pre : List Op) (i n : Nat) (v : Val) (c₁ c₂ : C) (rs₁ rs₂ : List Val)
+    (h₁ : run stepS C.init pre = .ok (c₁, rs₁))
+    (h₂ : run stepS c₁ [.capture i, .uset c₁.hs.length v, .tcall n, .uget c₁.hs.length] = .ok (c₂, rs₂)) :
+    rs₂.getLast? = some v :=
+  survives_return pre [.tcall n] (by intro op hop; simp at hop; subst hop; rfl) i v c₁ c₂ rs₁ rs₂ h₁ h₂
+
+/-- Before d86f559 the VM did not close the frame's upvalues at a tail call: the closure then
+read the callee's argument (60) instead of its variable (7). -/
+theorem tailcall_prefix_witness :
+    (run stepPreTCO C.init [.push 1, .push 7, .capture 1, .push 50, .push 60, .tcall 1, .uget 0]).toOption.map (·.2)
+      = some [60] ∧
+    (run stepS C.init [.push 1, .push 7, .capture 1, .push 50, .push 60, .tcall 1, .uget 0]).toOption.map (·.2)
+      = some [7] ∧
+    (run stepA A.init [.push 1, .push 7, .capture 1, .push 50, .push 60, .tcall 1, .uget 0]).toOption.map (·.2)
+      = some [7] := by
+  decide
 
 /-- **Survives growth** (with C10): the ADDRESSED machine — real addresses, reallocation at any
 points the policy chooses, any allocator, any initial size — reads what the cell machine reads
